@@ -869,7 +869,11 @@ func (st *tunnelClientStream) finishStream(err error, trailers metadata.MD) bool
 	verifYield("client.finish.afterDone")
 	defer st.cancel()
 	st.ch.removeStream(st.streamID)
-	st.receiver.close()
+	// Wake readers only after trailers have been published below (deferred
+	// calls run last-in-first-out, so this runs after metaMu is released):
+	// otherwise RecvMsg can return the terminal result before Trailer() and
+	// the grpc.Trailer targets are set.
+	defer st.receiver.close()
 	verifYield("client.finish.betweenPublish")
 
 	st.metaMu.Lock()
